@@ -7,8 +7,14 @@
    scope keeps mStartPos as that suffix, so SetPosition(mStartPos) puts it back.
    Exceptions are explicit: [Raise e st pos] carries the scope state at the throw and the reader
    position when the code determines it (needed because the scopes are destroyed during unwinding and
-   ~CMsgPackReadObjectScope reads: an exception leaving it is std::terminate, outcome [Term]).
-   No proofs in this file. *)
+   their destructors read).  Since 0863f96 / 49f9936 the destructors skip what was not read inside
+   try { } catch (...) { } — the array and binary scopes too — so a failing skip just stops there
+   (the reader stays where SkipValue threw: [skip_at] keeps that position); since 3580349 the
+   ResetKey() call of ~CMsgPackReadObjectScope stands inside the guard as well, so no destructor of
+   these scopes lets an exception escape: there is no terminate outcome any more.  Since 8d03f7f a
+   destructor whose skip failed sets the reader's flag mCloseScopeFailed (the boolean carried next to
+   every outcome below: "some scope closed so far could not skip its rest"), and
+   MsgPackReadRootScope::Finalize() throws ParsingException when it is set.  No proofs in this file. *)
 From BS Require Import Base MpSpec MpModel MpScopeSpec.
 Local Open Scope N_scope.
 
@@ -54,21 +60,79 @@ Definition s64 : ity := mkIty true 64.
 Record oscope := mkO { o_start : list N; o_size : N; o_index : N; o_key : option skey }.
 Record ascope := mkA { a_size : N; a_index : N }.
 
+(* ---------- SkipValueImpl with the reader position at the throw ---------- *)
+(* same function as MpModel.skip_impl; mPos is advanced through a reference, so an exception leaves it
+   behind the first byte of the (innermost) value that could not be skipped, or where it was when
+   there is no byte at all *)
+Inductive ares := AOk (rest : list N) | AErr (e : err) (at_throw : list N) | AFuel.
+
+Fixpoint skip_rep_at (step : list N -> ares) (g : nat) (cnt : N) (rest : list N) : ares :=
+  if cnt =? 0 then AOk rest else
+  match g with
+  | O => AFuel
+  | S g' => match step rest with
+            | AOk r => skip_rep_at step g' (cnt - 1) r
+            | e => e
+            end
+  end.
+
+Fixpoint skip_at_impl (fuel : nat) (rest : list N) {struct fuel} : ares :=
+  match fuel with
+  | O => AFuel
+  | S f =>
+    match rest with
+    | [] => AErr EParse rest
+    | b :: r1 =>
+      let m := byte_meta b in
+      if vtype_eqb (m_ty m) TUnknown then AErr EParse r1 else
+      let hdr : option (N * N) :=
+        if negb (m_fixed m =? 0) then Some (m_data m, m_fixed m)
+        else if negb (m_ext m =? 0) then
+          match get_value (m_ext m) r1 with
+          | Some (v, _) => Some (m_data m + m_ext m, v)
+          | None => None
+          end
+        else Some (m_data m, 0) in
+      match hdr with
+      | None => AErr EParse r1
+      | Some (size0, ext0) =>
+        let size := if is_sized (m_ty m) then size0 + ext0 else size0 in
+        let ext := if is_sized (m_ty m) then 0 else ext0 in
+        match take size r1 with
+        | None => AErr EParse r1
+        | Some (_, r2) =>
+          if ext =? 0 then AOk r2
+          else match m_ty m with
+               | TMap => skip_rep_at (skip_at_impl f) f (2 * ext) r2
+               | TArr => skip_rep_at (skip_at_impl f) f ext r2
+               | _ => AOk r2
+               end
+        end
+      end
+    end
+  end.
+
+Definition skip_at (rest : list N) : ares := skip_at_impl (S (length rest)) rest.
+
 Inductive out (S : Type) :=
 | Go (s : S) (rest : list N)                            (* returned normally *)
 | Raise (e : serr) (s : S) (pos : option (list N))      (* threw; pos = None: position not determined *)
-| Term                                                  (* an exception left a destructor *)
 | NoFuel
 | Stale.                                                (* ReadKey: ReadValue returned false (slot keeps old content) *)
-Arguments Go {S}. Arguments Raise {S}. Arguments Term {S}. Arguments NoFuel {S}. Arguments Stale {S}.
+Arguments Go {S}. Arguments Raise {S}. Arguments NoFuel {S}. Arguments Stale {S}.
+
+(* what a destructor leaves: the reader position (no exception escapes it) and whether its catch (...) block
+   was entered, i.e. SetCloseScopeFailed() called *)
+Inductive cres := CDone (rest : list N) (failed : bool) | CFuel.
 
 (* reader position at the throw of a typed read that started at [rest]: a mismatch is thrown before
-   anything is consumed, an overflow after the whole (scalar) value; parsing errors are thrown at
-   various points inside the value *)
+   anything is consumed, an overflow after the whole (scalar) value, "No more values to read" at the
+   end of the input without moving; other parsing errors are thrown at various points inside the value *)
 Definition epos (e : err) (rest : list N) : option (list N) :=
   match e with
   | EMismatch => Some rest
   | EOverflow => match skip_value rest with SOk r => Some r | _ => None end
+  | EParse => match rest with [] => Some [] | _ => None end
   | _ => None
   end.
 
@@ -125,12 +189,15 @@ Section Scopes.
     match o_key st with
     | None => Go st rest
     | Some _ =>
-      match skip_value rest with
-      | SOk r => Go (on_finish_child st) r
-      | SErr e => Raise (SE e) (set_key st None) None
-      | SFuel => NoFuel
+      match skip_at rest with
+      | AOk r => Go (on_finish_child st) r
+      | AErr e p => Raise (SE e) (set_key st None) (Some p)
+      | AFuel => NoFuel
       end
     end.
+
+  (* a ReadValue that threw inside ReadKey: GetValueRef has already made the slot current *)
+  Definition slot_written : skey := SKU 0.
 
   (* the loop of FindValueByKey: for (c = 0; c < mSize; ++c) *)
   Fixpoint find_loop (fuel : nat) (q : qkey) (c : N) (st : oscope) (rest : list N) : out (bool * oscope) :=
@@ -144,12 +211,13 @@ Section Scopes.
         | KOk k rest2 =>
           let st2 := set_key st1 (Some k) in
           if skey_eq k q then Go (true, st2) rest2
-          else match skip_value rest2 with
-               | SOk rest3 => find_loop f q (c + 1) (set_index st2 (o_index st2 + 1)) rest3
-               | SErr e => Raise (SE e) (false, st2) None
-               | SFuel => NoFuel
+          else match skip_at rest2 with
+               | AOk rest3 => find_loop f q (c + 1) (set_index st2 (o_index st2 + 1)) rest3
+               | AErr e p => Raise (SE e) (false, st2) (Some p)
+               | AFuel => NoFuel
                end
-        | KRaise e clean => Raise (SE e) (false, st1) (if clean then Some rest1 else None)
+        | KRaise e true => Raise (SE e) (false, st1) (Some rest1)
+        | KRaise e false => Raise (SE e) (false, set_key st1 (Some slot_written)) None
         | KStale => Stale
         | KFuel => NoFuel
         end
@@ -164,61 +232,84 @@ Section Scopes.
       else match reset_key st rest with
            | Go st1 rest1 => loop st1 rest1
            | Raise e s p => Raise e (false, s) p
-           | Term => Term | NoFuel => NoFuel | Stale => Stale
+           | NoFuel => NoFuel | Stale => Stale
            end
     | None => loop st rest
     end.
 
-  (* ---------- the destructor ---------- *)
-  Fixpoint close_loop (fuel : nat) (c size : N) (rest : list N) : sres :=
+  (* ---------- the destructors ---------- *)
+  (* try { for (c = mIndex; c < mSize; ++c) { SkipValue(); SkipValue(); ++mIndex; } } catch (...) { SetCloseScopeFailed(); } *)
+  Fixpoint close_loop (fuel : nat) (c size : N) (rest : list N) : cres :=
     match fuel with
-    | O => SFuel
+    | O => CFuel
     | S f =>
       if c <? size then
-        match skip_value rest with
-        | SOk r1 => match skip_value r1 with
-                    | SOk r2 => close_loop f (c + 1) size r2
-                    | other => other
+        match skip_at rest with
+        | AOk r1 => match skip_at r1 with
+                    | AOk r2 => close_loop f (c + 1) size r2
+                    | AErr _ p => CDone p true
+                    | AFuel => CFuel
                     end
-        | other => other
+        | AErr _ p => CDone p true
+        | AFuel => CFuel
         end
-      else SOk rest
+      else CDone rest false
     end.
 
-  Definition close_obj (st : oscope) (rest : list N) : sres :=
+  (* ~CMsgPackReadObjectScope: try { ResetKey(); for (...) { SkipValue(); SkipValue(); ++mIndex; } } catch (...) { SetCloseScopeFailed(); } *)
+  Definition close_obj (st : oscope) (rest : list N) : cres :=
     match reset_key st rest with
     | Go st1 rest1 => close_loop (S (length rest1)) (o_index st1) (o_size st1) rest1
-    | Raise (SE e) _ _ => SErr e
-    | Raise SERange _ _ => SErr EInternal
-    | _ => SFuel
+    | Raise _ _ (Some p) => CDone p true       (* ResetKey's SkipValue threw: swallowed, the reader stays there *)
+    | _ => CFuel
     end.
 
-  (* a child scope goes out of scope (normally, or during unwinding) *)
-  Definition after_child_obj {P} (notify : P -> P) (pst : P) (oc : out oscope) : out P :=
+  (* ~CMsgPackReadArrayScope: try { for (; mIndex < mSize; ++mIndex) SkipValue(); } catch (...) { SetCloseScopeFailed(); } *)
+  Fixpoint arr_close_loop (fuel : nat) (idx size : N) (rest : list N) : cres :=
+    match fuel with
+    | O => CFuel
+    | S f =>
+      if idx <? size then
+        match skip_at rest with
+        | AOk r => arr_close_loop f (idx + 1) size r
+        | AErr _ p => CDone p true
+        | AFuel => CFuel
+        end
+      else CDone rest false
+    end.
+  Definition close_arr (st : ascope) (rest : list N) : cres :=
+    arr_close_loop (S (length rest)) (a_index st) (a_size st) rest.
+
+  (* ~CMsgPackReadBinaryScope: try { for (; mIndex < mSize; ++mIndex) ReadBinary(); } catch (...) { SetCloseScopeFailed(); }
+     = the remaining mSize - mIndex bytes are passed, or the reader ends at the end of the input (ReadBinary threw) *)
+  Definition close_bin (st : ascope) (rest : list N) : cres :=
+    match take (a_size st - a_index st) rest with
+    | Some (_, r) => CDone r false
+    | None => CDone [] true
+    end.
+
+  (* a child scope goes out of scope (normally, or during unwinding); then ~CMsgPackScopeBase notifies the parent.
+     The boolean: the destructor set the flag (not tracked when it runs at an undetermined position during
+     unwinding: the flag is only ever read by Finalize(), after a normal return) *)
+  Definition after_child {C P} (close : C -> list N -> cres) (notify : P -> P) (pst : P) (oc : out C) : out P * bool :=
     match oc with
     | Go cst rest =>
-      match close_obj cst rest with
-      | SOk r => Go (notify pst) r
-      | SErr _ => Term
-      | SFuel => NoFuel
+      match close cst rest with
+      | CDone r f => (Go (notify pst) r, f)
+      | CFuel => (NoFuel, false)
       end
     | Raise e cst (Some rest) =>
-      match close_obj cst rest with
-      | SOk r => Raise e (notify pst) (Some r)
-      | SErr _ => Term
-      | SFuel => NoFuel
+      match close cst rest with
+      | CDone r f => (Raise e (notify pst) (Some r), f)
+      | CFuel => (NoFuel, false)
       end
-    | Raise e _ None => Raise e pst None
-    | Term => Term | NoFuel => NoFuel | Stale => Stale
+    | Raise e cst None => (Raise e (notify pst) None, false)
+    | NoFuel => (NoFuel, false) | Stale => (Stale, false)
     end.
 
-  (* array and binary scopes have no destructor body of their own *)
-  Definition after_child_plain {C P} (notify : P -> P) (pst : P) (oc : out C) : out P :=
-    match oc with
-    | Go _ rest => Go (notify pst) rest
-    | Raise e _ pos => Raise e (notify pst) pos
-    | Term => Term | NoFuel => NoFuel | Stale => Stale
-    end.
+  Definition after_child_obj {P} := @after_child oscope P close_obj.
+  Definition after_child_arr {P} := @after_child ascope P close_arr.
+  Definition after_child_bin {P} := @after_child ascope P close_bin.
 
   Definition is_go {S} (oc : out S) : bool := match oc with Go _ _ => true | _ => false end.
 
@@ -243,15 +334,6 @@ Section Scopes.
 
   Definition raise_typed {S} (e : err) (st : S) (rest : list N) : out S := Raise (SE e) st (epos e rest).
 
-  Definition lift_find {S} (oc : out (bool * oscope)) (k : oscope -> list N -> list tok * out S)
-             (nf : oscope -> list N -> list tok * out S) (re : serr -> oscope -> option (list N) -> out S) : list tok * out S :=
-    match oc with
-    | Go (true, st) rest => k st rest
-    | Go (false, st) rest => nf st rest
-    | Raise e (_, st) p => ([], re e st p)
-    | Term => ([], Term) | NoFuel => ([], NoFuel) | Stale => ([], Stale)
-    end.
-
   (* VisitKeys after ResetKey and SetPosition(mStartPos): for (mIndex = 0; mIndex < mSize;) { ReadKey(fn); ResetKey(); } *)
   Fixpoint visit_loop (fuel : nat) (st : oscope) (rest : list N) (acc : list key) : list tok * out oscope :=
     match fuel with
@@ -264,143 +346,148 @@ Section Scopes.
           | Go st2 r2 => visit_loop f st2 r2 (acc ++ [key_of_skey k])
           | other => ([], other)
           end
-        | KRaise e clean => ([], Raise (SE e) st (if clean then Some rest else None))
+        | KRaise e true => ([], Raise (SE e) st (Some rest))
+        | KRaise e false => ([], Raise (SE e) (set_key st (Some slot_written)) None)
         | KStale => ([], Stale)
         | KFuel => ([], NoFuel)
         end
       else ([KKeys acc], Go st rest)
     end.
 
+  (* tokens, outcome, "a scope closed on the way set the flag" *)
+  Definition res (S : Type) : Type := (list tok * out S * bool)%type.
+
+  Definition lift_find (oc : out (bool * oscope)) (k : oscope -> list N -> res oscope)
+             (nf : oscope -> list N -> res oscope) : res oscope :=
+    match oc with
+    | Go (true, st) rest => k st rest
+    | Go (false, st) rest => nf st rest
+    | Raise e (_, st) p => ([], Raise e st p, false)
+    | NoFuel => ([], NoFuel, false) | Stale => ([], Stale, false)
+    end.
+
+  (* a child scope: tokens of the child, the parent's outcome after the child's destruction, the flags *)
+  Definition with_child {C P} (after : out C -> out P * bool) (r : res C) : res P :=
+    let '(t, oc, f1) := r in
+    let '(oc2, f2) := after oc in
+    (wrap_child t oc, oc2, f1 || f2).
+
+  Definition plain {S} (r : list tok * out S) : res S := (fst r, snd r, false).
+
   (* ---------- the scopes driven by a program ---------- *)
-  Fixpoint run_req (r : req) (st : oscope) (rest : list N) {struct r} : list tok * out oscope :=
+  Fixpoint run_req (r : req) (st : oscope) (rest : list N) {struct r} : res oscope :=
     match r with
     | RGet q t =>                                                 (* SerializeValue(key, value) *)
       lift_find (find_value_by_key q st rest)
         (fun st1 r1 =>
            let st2 := on_finish_child st1 in                      (* mCurrentKey.Reset(); ++mIndex; *)
            match read_target t r1 with
-           | ROk v r2 => ([KVal v], Go st2 r2)
-           | RNot r2 => ([KFalse], Go st2 r2)
-           | RErr e => ([], raise_typed e st2 r1)
-           | RFuel => ([], NoFuel)
+           | ROk v r2 => ([KVal v], Go st2 r2, false)
+           | RNot r2 => ([KFalse], Go st2 r2, false)
+           | RErr e => ([], raise_typed e st2 r1, false)
+           | RFuel => ([], NoFuel, false)
            end)
-        (fun st1 r1 => ([KFalse], Go st1 r1))
-        (fun e s p => Raise e s p)
+        (fun st1 r1 => ([KFalse], Go st1 r1, false))
     | RObj q body =>                                              (* OpenObjectScope(key) *)
       lift_find (find_value_by_key q st rest)
         (fun st1 r1 =>
            match read_map_size o r1 with
-           | ROk n r2 =>
-             let '(t, oc) := run_reqs body (mkO r2 n 0 None) r2 in
-             (wrap_child t oc, after_child_obj on_finish_child st1 oc)
-           | RNot r2 => ([KNone], Go (on_finish_child st1) r2)
-           | RErr e => ([], raise_typed e st1 r1)
-           | RFuel => ([], NoFuel)
+           | ROk n r2 => with_child (after_child_obj on_finish_child st1) (run_reqs body (mkO r2 n 0 None) r2)
+           | RNot r2 => ([KNone], Go (on_finish_child st1) r2, false)
+           | RErr e => ([], raise_typed e st1 r1, false)
+           | RFuel => ([], NoFuel, false)
            end)
-        (fun st1 r1 => ([KNone], Go st1 r1))
-        (fun e s p => Raise e s p)
+        (fun st1 r1 => ([KNone], Go st1 r1, false))
     | RArr q body =>                                              (* OpenArrayScope(key) *)
       lift_find (find_value_by_key q st rest)
         (fun st1 r1 =>
            match read_array_size o r1 with
-           | ROk n r2 =>
-             let '(t, oc) := run_areqs body (mkA n 0) r2 in
-             (wrap_child t oc, after_child_plain on_finish_child st1 oc)
-           | RNot r2 => ([KNone], Go (on_finish_child st1) r2)
-           | RErr e => ([], raise_typed e st1 r1)
-           | RFuel => ([], NoFuel)
+           | ROk n r2 => with_child (after_child_arr on_finish_child st1) (run_areqs body (mkA n 0) r2)
+           | RNot r2 => ([KNone], Go (on_finish_child st1) r2, false)
+           | RErr e => ([], raise_typed e st1 r1, false)
+           | RFuel => ([], NoFuel, false)
            end)
-        (fun st1 r1 => ([KNone], Go st1 r1))
-        (fun e s p => Raise e s p)
+        (fun st1 r1 => ([KNone], Go st1 r1, false))
     | RBin q n =>                                                 (* OpenBinaryScope(key) *)
       lift_find (find_value_by_key q st rest)
         (fun st1 r1 =>
            match read_value_type r1 with
-           | inr e => ([], Raise (SE e) st1 (Some r1))
+           | inr e => ([], Raise (SE e) st1 (Some r1), false)
            | inl TBin =>
              match read_bin_size o r1 with
-             | ROk sz r2 =>
-               let '(t, oc) := bin_reads n (mkA sz 0) r2 in
-               (wrap_child t oc, after_child_plain on_finish_child st1 oc)
-             | RNot r2 => ([KNone], Go (on_finish_child st1) r2)
-             | RErr e => ([], raise_typed e st1 r1)
-             | RFuel => ([], NoFuel)
+             | ROk sz r2 => with_child (after_child_bin on_finish_child st1) (plain (bin_reads n (mkA sz 0) r2))
+             | RNot r2 => ([KNone], Go (on_finish_child st1) r2, false)
+             | RErr e => ([], raise_typed e st1 r1, false)
+             | RFuel => ([], NoFuel, false)
              end
-           | inl _ => ([KNone], Go st1 r1)                        (* nothing consumed, mCurrentKey stays *)
+           | inl _ => ([KNone], Go st1 r1, false)                 (* nothing consumed, mCurrentKey stays *)
            end)
-        (fun st1 r1 => ([KNone], Go st1 r1))
-        (fun e s p => Raise e s p)
+        (fun st1 r1 => ([KNone], Go st1 r1, false))
     | RVisit =>                                                   (* VisitKeys *)
       match reset_key st rest with
-      | Go st1 _ => visit_loop (S (length (o_start st1))) (set_index st1 0) (o_start st1) []
-      | other => ([], other)
+      | Go st1 _ => plain (visit_loop (S (length (o_start st1))) (set_index st1 0) (o_start st1) [])
+      | other => ([], other, false)
       end
     end
-  with run_reqs (l : reqs) (st : oscope) (rest : list N) {struct l} : list tok * out oscope :=
+  with run_reqs (l : reqs) (st : oscope) (rest : list N) {struct l} : res oscope :=
     match l with
-    | RNil => ([], Go st rest)
+    | RNil => ([], Go st rest, false)
     | RCons r l' =>
       match run_req r st rest with
-      | (t1, Go st1 r1) => let '(t2, oc) := run_reqs l' st1 r1 in (t1 ++ t2, oc)
+      | (t1, Go st1 r1, f1) => let '(t2, oc, f2) := run_reqs l' st1 r1 in (t1 ++ t2, oc, f1 || f2)
       | failed => failed
       end
     end
-  with run_areq (a : areq) (st : ascope) (rest : list N) {struct a} : list tok * out ascope :=
+  with run_areq (a : areq) (st : ascope) (rest : list N) {struct a} : res ascope :=
     let next := mkA (a_size st) (a_index st + 1) in
     match a with
-    | AEnd => ([KIsEnd (a_index st =? a_size st)], Go st rest)
+    | AEnd => ([KIsEnd (a_index st =? a_size st)], Go st rest, false)
     | _ =>
-      if a_index st =? a_size st then ([], Raise SERange st (Some rest))      (* CheckEnd *)
+      if a_index st =? a_size st then ([], Raise SERange st (Some rest), false)      (* CheckEnd *)
       else
         match a with
         | AGet t =>                                               (* SerializeValue(value); ++mIndex *)
           match read_target t rest with
-          | ROk v r => ([KVal v], Go next r)
-          | RNot r => ([KFalse], Go next r)
-          | RErr e => ([], raise_typed e st rest)
-          | RFuel => ([], NoFuel)
+          | ROk v r => ([KVal v], Go next r, false)
+          | RNot r => ([KFalse], Go next r, false)
+          | RErr e => ([], raise_typed e st rest, false)
+          | RFuel => ([], NoFuel, false)
           end
         | AObj body =>
           match read_map_size o rest with
-          | ROk n r =>
-            let '(t, oc) := run_reqs body (mkO r n 0 None) r in
-            (wrap_child t oc, after_child_obj (fun s => s) next oc)
-          | RNot r => ([KNone], Go next r)
-          | RErr e => ([], raise_typed e st rest)
-          | RFuel => ([], NoFuel)
+          | ROk n r => with_child (after_child_obj (fun s => s) next) (run_reqs body (mkO r n 0 None) r)
+          | RNot r => ([KNone], Go next r, false)
+          | RErr e => ([], raise_typed e st rest, false)
+          | RFuel => ([], NoFuel, false)
           end
         | AArr body =>
           match read_array_size o rest with
-          | ROk n r =>
-            let '(t, oc) := run_areqs body (mkA n 0) r in
-            (wrap_child t oc, after_child_plain (fun s => s) next oc)
-          | RNot r => ([KNone], Go next r)
-          | RErr e => ([], raise_typed e st rest)
-          | RFuel => ([], NoFuel)
+          | ROk n r => with_child (after_child_arr (fun s => s) next) (run_areqs body (mkA n 0) r)
+          | RNot r => ([KNone], Go next r, false)
+          | RErr e => ([], raise_typed e st rest, false)
+          | RFuel => ([], NoFuel, false)
           end
         | ABin n =>
           match read_value_type rest with
-          | inr e => ([], Raise (SE e) st (Some rest))
+          | inr e => ([], Raise (SE e) st (Some rest), false)
           | inl TBin =>
             match read_bin_size o rest with
-            | ROk sz r =>
-              let '(t, oc) := bin_reads n (mkA sz 0) r in
-              (wrap_child t oc, after_child_plain (fun s => s) next oc)
-            | RNot r => ([KNone], Go next r)
-            | RErr e => ([], raise_typed e st rest)
-            | RFuel => ([], NoFuel)
+            | ROk sz r => with_child (after_child_bin (fun s => s) next) (plain (bin_reads n (mkA sz 0) r))
+            | RNot r => ([KNone], Go next r, false)
+            | RErr e => ([], raise_typed e st rest, false)
+            | RFuel => ([], NoFuel, false)
             end
-          | inl _ => ([KNone], Go st rest)
+          | inl _ => ([KNone], Go st rest, false)
           end
-        | AEnd => ([], Go st rest)
+        | AEnd => ([], Go st rest, false)
         end
     end
-  with run_areqs (l : areqs) (st : ascope) (rest : list N) {struct l} : list tok * out ascope :=
+  with run_areqs (l : areqs) (st : ascope) (rest : list N) {struct l} : res ascope :=
     match l with
-    | ANil => ([], Go st rest)
+    | ANil => ([], Go st rest, false)
     | ACons a l' =>
       match run_areq a st rest with
-      | (t1, Go st1 r1) => let '(t2, oc) := run_areqs l' st1 r1 in (t1 ++ t2, oc)
+      | (t1, Go st1 r1, f1) => let '(t2, oc, f2) := run_areqs l' st1 r1 in (t1 ++ t2, oc, f1 || f2)
       | failed => failed
       end
     end.
@@ -408,42 +495,45 @@ Section Scopes.
   (* ---------- the root: MsgPackReadRootScope::OpenObjectScope / OpenArrayScope, the program, the
      scope's destruction; what is left is the reader position ---------- *)
   Inductive final :=
-  | Done (toks : list tok) (rest : list N)
-  | Failed (toks : list tok) (e : serr) (clean : bool)   (* clean = false: thrown from inside a value, the unwinding is not followed *)
-  | FTerm | FFuel | FStale.
+  | Done (toks : list tok) (rest : list N) (close_failed : bool)   (* close_failed = IsCloseScopeFailed() *)
+  | Failed (toks : list tok) (e : serr)
+  | FFuel | FStale.
 
-  Definition finish_root_obj (t : list tok) (oc : out oscope) : final :=
-    match after_child_obj (fun u : unit => u) tt oc with
-    | Go _ r => Done (wrap_child t oc) r
-    | Raise e _ (Some _) => Failed (wrap_child t oc) e true
-    | Raise e _ None => Failed (wrap_child t oc) e false
-    | Term => FTerm | NoFuel => FFuel | Stale => FStale
+  Definition finish_root {P} (r : res P) : final :=
+    match r with
+    | (t, Go _ rest, f) => Done t rest f
+    | (t, Raise e _ _, _) => Failed t e
+    | (_, NoFuel, _) => FFuel
+    | (_, Stale, _) => FStale
     end.
-
-  Definition finish_root_arr (t : list tok) (oc : out ascope) : final :=
-    match oc with
-    | Go _ r => Done (wrap_child t oc) r
-    | Raise e _ (Some _) => Failed (wrap_child t oc) e true
-    | Raise e _ None => Failed (wrap_child t oc) e false
-    | Term => FTerm | NoFuel => FFuel | Stale => FStale
-    end.
-
-  Definition root_failed (e : err) (rest : list N) : final :=
-    Failed [] (SE e) (match epos e rest with Some _ => true | None => false end).
 
   Definition run_obj_root (data : list N) (h : reqs) : final :=
     match read_map_size o data with
-    | ROk n body => let '(t, oc) := run_reqs h (mkO body n 0 None) body in finish_root_obj t oc
-    | RNot r => Done [KNone] r
-    | RErr e => root_failed e data
+    | ROk n body => finish_root (with_child (after_child_obj (fun u : unit => u) tt) (run_reqs h (mkO body n 0 None) body))
+    | RNot r => Done [KNone] r false
+    | RErr e => Failed [] (SE e)
     | RFuel => FFuel
     end.
 
   Definition run_arr_root (data : list N) (h : areqs) : final :=
     match read_array_size o data with
-    | ROk n body => let '(t, oc) := run_areqs h (mkA n 0) body in finish_root_arr t oc
-    | RNot r => Done [KNone] r
-    | RErr e => root_failed e data
+    | ROk n body => finish_root (with_child (after_child_arr (fun u : unit => u) tt) (run_areqs h (mkA n 0) body))
+    | RNot r => Done [KNone] r false
+    | RErr e => Failed [] (SE e)
     | RFuel => FFuel
     end.
+
+  (* LoadObject: the program, then MsgPackReadRootScope::Finalize() when it returned normally *)
+  Inductive loaded := LOk (toks : list tok) (rest : list N) | LErr (toks : list tok) (e : serr) | LFuel | LStale.
+
+  Definition finalize (f : final) : loaded :=
+    match f with
+    | Done toks rest false => LOk toks rest
+    | Done toks rest true => LErr toks (SE EParse)          (* "Unexpected end of input archive" *)
+    | Failed toks e => LErr toks e
+    | FFuel => LFuel | FStale => LStale
+    end.
+
+  Definition load_obj (data : list N) (h : reqs) : loaded := finalize (run_obj_root data h).
+  Definition load_arr (data : list N) (h : areqs) : loaded := finalize (run_arr_root data h).
 End Scopes.
